@@ -196,25 +196,29 @@ Proof.
   replace (i - s)%nat with (S (i - S s)) by lia. reflexivity.
 Qed.
 
+Lemma upd_active_idem o u i q p c f : upd_active (mkRec i q p c (upd_active o u) f) u = upd_active o u.
+Proof.
+  unfold upd_active. cbn [r_active]. destruct (u_assign u); [reflexivity|].
+  destruct rec_update_activity_from_store; reflexivity.
+Qed.
+
 Lemma build_update_idem o u r : build_update o u = Some r -> build_update r u = Some r.
 Proof.
   unfold build_update. destruct (negb (r_id o =? u_id u)) eqn:E1; [discriminate|].
   destruct (negb (u_parent u =? 0) && negb (u_parent u =? r_parent o)) eqn:E2; [discriminate|].
   destruct (negb (u_container u =? 0) && negb (u_container u =? r_container o)) eqn:E3; [discriminate|].
   intros H; inversion H; subst r; clear H. cbn [r_id r_parent r_container r_active r_fields r_qname].
-  rewrite E1, E2, E3, overlay_idem. do 2 f_equal.
-  destruct (u_active u), (r_active o); reflexivity.
+  rewrite E1, E2, E3, overlay_idem, upd_active_idem. reflexivity.
 Qed.
 
 Lemma build_update_shape o u r : build_update o u = Some r ->
   r_id o = u_id u /\
-  r = mkRec (r_id o) (r_qname o) (r_parent o) (r_container o) (u_active u) (overlay (r_fields o) (u_changes u)).
+  r = mkRec (r_id o) (r_qname o) (r_parent o) (r_container o) (upd_active o u) (overlay (r_fields o) (u_changes u)).
 Proof.
   unfold build_update. destruct (negb (r_id o =? u_id u)) eqn:E1; [discriminate|].
   destruct (_ && _); [discriminate|]. destruct (_ && _); [discriminate|].
   intros H; inversion H; subst r; clear H.
-  apply negb_false_iff, N.eqb_eq in E1. split; auto. f_equal.
-  destruct (u_active u), (r_active o); reflexivity.
+  apply negb_false_iff, N.eqb_eq in E1. split; auto.
 Qed.
 
 (* ---------- batches ---------- *)
@@ -382,14 +386,16 @@ Record event_facts (st : store) (e : event) : Prop := {
   ef_new : forall c, In c (e_creates e) -> lookup st (e_ws e) (c_id c) = None;
   ef_upd : forall u, In u (e_updates e) -> exists o r,
       lookup st (e_ws e) (u_id u) = Some o /\ build_update o u = Some r /\
-      eff_origin st (e_ws e) u = Some o
+      eff_origin st (e_ws e) u = Some o;
+  ef_act : forall u o, In u (e_updates e) -> lookup st (e_ws e) (u_id u) = Some o ->
+      upd_active o u = match u_assign u with Some b => b | None => r_active o end
 }.
 
 Lemma valid_event_facts st e : valid_event st e = true -> event_facts st e.
 Proof.
-  unfold valid_event, accepts, ev_bounded, fresh_origins, new_ids_fresh.
+  unfold valid_event, valid_event_but_activity, accepts, ev_bounded, fresh_origins, new_ids_fresh.
   rewrite !andb_true_iff, !forallb_forall, N.eqb_eq, N.ltb_lt.
-  intros [[[HA [HW HB]] HFr] HN]. constructor.
+  intros [[[[HA [HW HB]] HFr] HN] HAct]. constructor.
   - exact HW.
   - apply Forall_forall. intros i HI. apply N.ltb_lt. apply HB; exact HI.
   - apply nodupb_NoDup. destruct (nodupb (event_ids e)) eqn:E; [reflexivity|].
@@ -400,6 +406,10 @@ Proof.
     destruct (lookup st (e_ws e) (u_id u)) as [o|] eqn:EL; [|discriminate].
     destruct (build_update o u) as [r|] eqn:EB; [|discriminate].
     exists o, r. repeat split; auto. unfold eff_origin. rewrite Hreload, Hid. exact EL.
+  - intros u o HI HL. unfold upd_active. destruct (u_assign u) as [b|] eqn:EA; [reflexivity|].
+    unfold activity_ok in HAct. destruct rec_update_activity_from_store; [reflexivity|].
+    cbn [orb] in HAct. rewrite forallb_forall in HAct. specialize (HAct u HI).
+    rewrite EA, HL in HAct. apply Bool.eqb_prop in HAct. exact HAct.
 Qed.
 
 Lemma ef_id_lt st e i : event_facts st e -> In i (event_ids e) -> i < bound64.
@@ -506,11 +516,12 @@ Qed.
 
 Lemma spec_update u older o r :
   spec_rec older (u_id u) = Some o -> build_update o u = Some r ->
+  upd_active o u = match u_assign u with Some b => b | None => r_active o end ->
   spec_rec (TUpdate u :: older) (u_id u) = Some r.
 Proof.
   unfold spec_rec. cbn [created_by active_of]. destruct (created_by older) as [c|]; [|discriminate].
-  intros H B. inversion H; subst o; clear H. apply build_update_shape in B as [_ ->].
-  cbn [r_id r_qname r_parent r_container r_fields]. do 2 f_equal.
+  intros H B A. inversion H; subst o; clear H. apply build_update_shape in B as [_ ->].
+  cbn [r_id r_qname r_parent r_container r_fields r_active] in *. rewrite A. f_equal. f_equal.
   rewrite overlay_map_seq. apply map_ext. intros i. cbn [field_of]. rewrite Nat.sub_0_r. reflexivity.
 Qed.
 
@@ -526,7 +537,7 @@ Proof.
         cbn [app]. symmetry. apply spec_create.
       * rewrite (item_of_update st e x F HX), (ev_touches_update e x (ef_nodup _ _ F) HX).
         cbn [app]. destruct (ef_upd _ _ F x HX) as [o [r [Hl [Hb _]]]].
-        unfold res_of. rewrite Hl, Hb. symmetry. eapply spec_update; [|exact Hb].
+        unfold res_of. rewrite Hl, Hb. symmetry. eapply spec_update; [|exact Hb|exact (ef_act _ _ F x o HX Hl)].
         rewrite <- Hl. symmetry. apply I; auto.
     + rewrite item_of_not_in by (rewrite ev_items_ids; exact HN).
       rewrite ev_touches_none by (right; exact HN). cbn [app]. apply I; auto.
